@@ -251,7 +251,7 @@ def run_login(run, rng, pv, order, threshold, terminal, server_id, auth,
             tok.profile = authentication.Profile('0123abcd', 'authname')
             kw['auth_token'] = tok
         conn = pc.make_connection(server.port, rec, allowed_versions={pv},
-                                  **kw)
+                                  decoy=rng.random() < 0.3, **kw)
         if user_handler:
             from minecraft.networking.packets import clientbound, serverbound
 
@@ -311,6 +311,9 @@ def run_login(run, rng, pv, order, threshold, terminal, server_id, auth,
             if errs[0][1] == 'script':
                 return 'server script error: %r' % (errs[:1],)
         run.count('logins')
+        if getattr(rec, 'decoy', None) is not None:
+            rec.decoy.verdict(run, w)
+            run.count('logins.with_decoy_object')
         run.count('frames_of_exactly_threshold_bytes',
                   state.get('exact_threshold_frames', 0))
 
@@ -425,6 +428,8 @@ def run_login(run, rng, pv, order, threshold, terminal, server_id, auth,
                     'not name the server\'s version', exc=str(exc))
         return None
     finally:
+        if getattr(rec, 'decoy', None) is not None:
+            rec.decoy.port.close()
         server.stop()
         if conn is not None:
             try:
